@@ -33,6 +33,7 @@ def rawTok : Tok → String
   | .num n .plus => "+" ++ toString n
   | .num n .dotZero => toString n ++ ".0"
   | .str s => s
+  | .fl _ sp _ => sp
 
 /-- insertion sort on strings (tail of option-order-insensitive methods) -/
 def insertStr (x : String) : List String → List String
@@ -55,6 +56,43 @@ def answer (oracle : Bool) (m : String) (ws : List String) : String :=
     match both m vs with
     | none => "unmodelled"
     | some (a, g) => render m (if oracle then g else a) oracle
+/-! value-encoding ops: string payloads stay hex words (they may be binary); "-" = empty -/
+
+def parseAny (ws : List String) : Option AnyVal :=
+  match ws with
+  | ["nil"] => some .nil
+  | ["str", h] => some (.str h)
+  | ["bytes", h] => some (.bytes h)
+  | ["int", n] => n.toInt?.map .int
+  | ["f64", b, f, g] => b.toNat?.map fun bits => .f64 bits f g
+  | ["f32", b, f, g] => b.toNat?.map fun bits => .f32 bits f g
+  | ["bool", b] => some (.bool (b == "1"))
+  | ["time", r, b] => some (.time r b)
+  | ["dur", n] => n.toInt?.map .dur
+  | ["bm", b, sp, ok] => some (.marshaler b sp (ok == "1"))
+  | ["ip", r, t] => some (.ip r t)
+  | ["stringer", t] => some (.stringer t)
+  | _ => none
+
+/-- a value token whose string payload is already a hex word -/
+def valueHex (oracle : Bool) : Tok → String
+  | .str h => if h == "" then "-" else h
+  | .num n _ => strHex (toString n)
+  | .fl _ sp c => if oracle then c else sp
+  | .kw n _ => strHex n
+
+def answerAny (oracle : Bool) (m : String) (ws : List String) : String :=
+  match parseAny ws, anyTemplate m with
+  | some v, some (pre, n, post) =>
+    let side (up : Bool) (t : Tok) : String :=
+      let ts (ps : List Piece) := ((if oracle then normalize (build up ps) else build up ps).map rawTok).map strHex
+      "argv:" ++ ",".intercalate (ts pre ++ List.replicate n (valueHex oracle t) ++ ts post)
+    if oracle then
+      match G.appendArg v with
+      | some g => side false (normTok g)
+      | none => "nothing"
+    else side true (A.str v)
+  | _, _ => "bad-op"
 end ArgvDrv
 
 /-- driver state: transaction mode?, model state, and (for oracle lines) the plain list of labels
@@ -202,6 +240,9 @@ def step (s : St) (ws : List String) : St × String :=
   | ["covered"] => (s, toString Rv.GoRedisArgv.covered.length)
   | "argv" :: m :: vals => (s, ArgvDrv.answer false m vals)
   | "!argv" :: m :: vals => (s, ArgvDrv.answer true m vals)
+  | "anyv" :: m :: desc => (s, ArgvDrv.answerAny false m desc)
+  | "!anyv" :: m :: desc => (s, ArgvDrv.answerAny true m desc)
+  | ["anymethods"] => (s, toString Rv.GoRedisArgv.anyMethods.length)
   | _ => (s, "bad-op")
 
 def main : IO Unit := Hex.lineLoop St.init step
